@@ -97,13 +97,15 @@ brk("c10-swapped-payload", ["C10"], "src/query/insert.rs",
     """            return Err(Error::ColValNumMismatch {
                 col_len: values.len(),
                 val_len: self.columns.len(),
-            });""", "C10.R2:values:err-payload")
+            });""", "C10.R1:values:table")
+
 brk("c10-write-before-check", ["C10"], "src/query/insert.rs",
     """        let values = values.into_iter().collect::<Vec<SimpleExpr>>();
         if self.columns.len() != values.len() {""",
     """        let values = values.into_iter().collect::<Vec<SimpleExpr>>();
         self.default_values = None;
-        if self.columns.len() != values.len() {""", "C10.R1:values:write:default_values")
+        if self.columns.len() != values.len() {""", "C10.R1:values:table")
+
 brk("c10-new-source-writer", ["C10"], "src/query/insert.rs",
     """    pub fn or_default_values(&mut self) -> &mut Self {
         self.default_values = Some(1);""",
